@@ -246,7 +246,10 @@ fn run_cases(
                 } else {
                     stats.disagreements += 1;
                 }
-                if fails.len() < 50 {
+                // keep up to 50 failures of each kind: a flood of correspondence disagreements must not
+                // crowd out the (preferred) oracle failure that carries a concrete property violation
+                let same_kind = fails.iter().filter(|g| g.kind == f.kind).count();
+                if same_kind < 50 {
                     fails.push(f);
                 }
             }
